@@ -144,7 +144,7 @@ def gen_utimes(rng, cid):
 class Fam:
     """a family of programs: progs[0] is the top; every program knows its includes, inherits and function texts"""
 
-    def __init__(self, rng, cid, nprog=None, big=False, saves=None):
+    def __init__(self, rng, cid, nprog=None, big=False, saves=None, sb_force=None):
         self.rng = rng
         self.dir = "c17/w/" + cid
         self.used_names = set()
@@ -182,6 +182,8 @@ class Fam:
             nf = len(p["fns"])
             if p["save"]:
                 p["sb"] = rng.weighted([("top", 4), ("mid", 4), ("end", 3), ("inc-top", 1), ("inc-end", 2), ("toggle-on", 2)])
+                if sb_force and i in sb_force:
+                    p["sb"] = sb_force[i]
             else:
                 p["sb"] = rng.weighted([("none", 3), ("toggle-off", 1)])
             p["sb_at"] = rng.range(1, nf) if nf else 0          # "mid": after this many functions
@@ -368,8 +370,9 @@ class Fam:
     def decl(self, i):
         p = self.progs[i]
         ssw = sum(1 for f in p["fns"] if f["kind"] == "sswitch")
-        return "prog %s save=%d inc=%s inh=%s ssw=%d" % (self.path(i), 1 if p["save"] else 0, ",".join(self.inc_list(i)) or "-",
-                                                         ",".join(self.path(j) for j in p["inh"]) or "-", ssw)
+        return "prog %s save=%d inc=%s inh=%s ssw=%d%s" % (self.path(i), 1 if p["save"] else 0, ",".join(self.inc_list(i)) or "-",
+                                                           ",".join(self.path(j) for j in p["inh"]) or "-", ssw,
+                                                           " refuse=1" if p.get("refuse") else "")
 
     def all_names(self):
         names = ["#global_init#"]
@@ -404,8 +407,8 @@ class Fam:
         return toks, expect
 
 
-def sys_case(rng, cid, steps=None, nprog=None, big=False, script=None, mode=None, saves=None):
-    fam = Fam(rng, cid, nprog=nprog, big=big, saves=saves)
+def sys_case(rng, cid, steps=None, nprog=None, big=False, script=None, mode=None, saves=None, sb_force=None):
+    fam = Fam(rng, cid, nprog=nprog, big=big, saves=saves, sb_force=sb_force)
     t = 1000
     L = ["clean /" + fam.dir]
     for nm in sorted(fam.incs):
@@ -449,7 +452,7 @@ def sys_case(rng, cid, steps=None, nprog=None, big=False, script=None, mode=None
             script.append(rng.weighted([("nothing", 6), ("edit-src", 3), ("edit-inc", 3), ("touch-inh", 2), ("touch-src", 2),
                                         ("touch-inc", 1), ("simul-restart", 2), ("restart", 1), ("equal-inc", 1),
                                         ("simul-norestart", 1), ("edit-parent-inc", 2), ("damage", 2), ("foreign", 2), ("moved", 1), ("badload", 1),
-                                        ("parent-noreload", 3)]))
+                                        ("parent-noreload", 3), ("parent-drops-pragma", 3), ("parent-refused", 3)]))
     for act in script:
         t += 1
         which = None
@@ -531,6 +534,49 @@ def sys_case(rng, cid, steps=None, nprog=None, big=False, script=None, mode=None
                 # the programs after `|` stay loaded as they are; they are dumped like the others
                 L.append("reload " + " ".join(objs[:keep]) + " | " + " ".join(objs[keep:]))
                 t += 10
+        elif act == "parent-refused" and len(fam.progs) > 1:
+            # from now on the master refuses to have a saved parent saved again (its binary on disk becomes a leftover), and
+            # something only that parent was built from changes: one of its headers, or a program it inherits
+            cand = [i for i in range(1, len(fam.progs)) if fam.progs[i]["save"]]
+            if which is not None:
+                cand = [i for i in cand if i == which]
+            if cand:
+                i = rng.choice(cand)
+                fam.progs[i]["refuse"] = True
+                L.append("file /c17/nosave/%s 00" % fam.path(i))
+                L.append(fam.decl(i))
+                above = set(nm for j in range(i) for nm in fam.progs[j]["inc"])
+                heads = [nm for nm in fam.progs[i]["inc"] if nm not in above]
+                below = [j for j in range(i + 1, len(fam.progs))]
+                if heads and (not below or rng.chance(1, 2)):
+                    nm = rng.choice(heads)
+                    fam.incs[nm]["k"] += 1
+                    L.append("file /%s %s" % (fam.inc_path(nm), hx(fam.inc_text(nm))))
+                    L.append("mtime /%s %d" % (fam.inc_path(nm), t))
+                elif below:
+                    j = rng.choice(below)
+                    fam.progs[j]["grow"] = fam.progs[j].get("grow", 0) + 1
+                    L.append("file /%s %s" % (fam.path(j), hx(fam.text(j))))
+                    L.append("mtime /%s %d" % (fam.path(j), t))
+                else:
+                    fam.progs[i]["k"] += 1
+                    L.append("file /%s %s" % (fam.path(i), hx(fam.text(i))))
+                    L.append("mtime /%s %d" % (fam.path(i), t))
+        elif act == "parent-drops-pragma":
+            # the header that carries a parent's `#pragma save_binary` is edited and loses it: the parent is compiled again
+            # but not saved again, its binary on disk is a leftover older than what the parent in memory was built from
+            cand = [i for i in range(1, len(fam.progs)) if fam.progs[i]["save"] and fam.progs[i].get("sb") in ("inc-top", "inc-end")]
+            if which is not None:
+                cand = [i for i in cand if i == which]
+            if cand:
+                i = rng.choice(cand)
+                nm = fam.progs[i]["sbinc"]
+                fam.incs[nm]["pragma"] = False
+                fam.incs[nm]["k"] += 1
+                fam.progs[i]["save"] = False
+                L.append("file /%s %s" % (fam.inc_path(nm), hx(fam.inc_text(nm))))
+                L.append("mtime /%s %d" % (fam.inc_path(nm), t))
+                L.append(fam.decl(i))
         elif act == "restart":
             L.append("restart " + " ".join(objs))
         reload()
@@ -613,6 +659,31 @@ def boundary():
             c = sys_case(E.Rng(seed + 10 * k), "n%d_%d" % (k, seed), nprog=len(saves), script=script, saves=saves,
                          mode=["reloadp", "reload"][seed % 2])
             c.id = "b-sys-parent-noreload-%d-%d" % (k, seed)
+            B.append(c)
+    # a parent whose binary on disk is a leftover: the header with its pragma is edited and drops it (parent compiled again,
+    # not saved again); then nothing / further edits at other levels; chains of 2, 3 and 4 programs
+    for k, (saves, force, script) in enumerate([
+            ([True, True], {1: "inc-end"}, [("parent-drops-pragma", 1), "nothing"]),
+            ([True, True], {1: "inc-top"}, [("parent-drops-pragma", 1), "edit-parent-inc", "nothing"]),
+            ([True, True, True], {2: "inc-end"}, [("parent-drops-pragma", 2), "nothing"]),
+            ([True, True, True], {1: "inc-end"}, [("parent-drops-pragma", 1), ("edit-src", 2), "nothing"]),
+            ([True, False, True], {2: "inc-top"}, [("parent-drops-pragma", 2), "nothing", "restart"]),
+            ([True, True, True, True], {2: "inc-end", 3: "inc-end"}, [("parent-drops-pragma", 3), ("parent-drops-pragma", 2), "nothing"])]):
+        for seed in (7500, 7501):
+            c = sys_case(E.Rng(seed + 10 * k), "l%d_%d" % (k, seed), nprog=len(saves), script=script, saves=saves, sb_force=force,
+                         mode=["reloadp", "reload"][seed % 2])
+            c.id = "b-sys-leftover-binary-%d-%d" % (k, seed)
+            B.append(c)
+    for k, (saves, script) in enumerate([([True, True], [("parent-refused", 1), "nothing"]),
+                                         ([True, True, True], [("parent-refused", 1), "nothing"]),
+                                         ([True, True, False], [("parent-refused", 1), "nothing", "restart"]),
+                                         ([True, True, True], [("parent-refused", 2), "nothing"]),
+                                         ([True, True, True, True], [("parent-refused", 2), ("parent-refused", 1), "nothing"]),
+                                         ([True, True], [("parent-refused", 1), "edit-src", "nothing"])]):
+        for seed in (7600, 7601, 7602):
+            c = sys_case(E.Rng(seed + 10 * k), "r%d_%d" % (k, seed), nprog=len(saves), script=script, saves=saves,
+                         mode=["reloadp", "reload"][seed % 2])
+            c.id = "b-sys-refused-resave-%d-%d" % (k, seed)
             B.append(c)
     for k in range(4):
         c = sys_case(E.Rng(7300 + k), "e%d" % k, nprog=2, script=["badload", "nothing"], mode="reload")
